@@ -453,7 +453,8 @@ Proof.
   destruct (s_buffered st) as [|sig rest]; expose; (split; [|exact I]).
   - apply (legal_one_put _ _ [] i st _ (OMark id :: [])); [solve_quiet|solve_quiet|exact Hs|].
     split; [simpl; rewrite Hsus; reflexivity|]. simpl. apply tasks_legal_set with tk; [exact Ht|rewrite Hr; reflexivity].
-  - apply legal_put_same with st; [solve_quiet|exact Hs|reflexivity|reflexivity].
+  - apply (legal_one_put _ _ [] i st _ (OMark id :: OPush _ :: [])); [solve_quiet|solve_quiet|exact Hs|].
+    split; [simpl; rewrite Hsus; reflexivity|]. simpl. apply tasks_legal_set with tk; [exact Ht|rewrite Hr; reflexivity].
 Qed.
 
 Lemma legal_handle_exception s id i t st a r :
